@@ -241,6 +241,66 @@ def run(cx, rep):
                    "%s: the two environment branches of a value-kind test differ in %s: a value kind is treated as an opaque leaf in one runtime and merged key by key in the other (typed arrays, Dates lose their kind in parse output)" % (fname, sorted(diff)),
                    mod.loc(n), sample={"test": test, "then": sorted(a), "else": sorted(b)})
     rep.floor("C03.6", "environment-dependent kind tests in deepmerge", n_pred, 1)
+    # ---------------------------------------------------------------- C03.18
+    rep.rule("C03.18", "the runtime keeps no module-level state between calls except registries keyed by a parameter of a module-level registering function")
+    # validate / safeParse / parse are functions of (validator, input, options).  A module-level container that some
+    # function mutates is state shared by ALL parsers and ALL calls: a fast path keyed on it (`seen.has(input)`) makes
+    # the result of one call depend on earlier calls - of other parsers too.  The only accepted shape is a registry:
+    # every write is `X[k] = v` with k and v parameters of an exported top-level function (custom formats).
+    n_state = 0
+    for rel in ("packages/beff-client/src/codegen-v2.ts", "packages/beff-client/src/err.ts", "packages/beff-client/src/hash.ts"):
+        m2 = cx.ts(rel)
+        fns2 = list(m2.functions.items()) + [(vn, init) for vn, (_k, init, _d) in m2.vars.items() if init is not None and init.get("type") in ("ArrowFunctionExpression", "FunctionExpression")]
+        fns2 += [("%s.%s" % (cn, mn), mm["function"]) for cn, c_ in m2.classes.items() for mn, mm in c_.methods.items()]
+        for vn, (kind, init, decl) in sorted(m2.vars.items()):
+            i_ = unparen(init) if init is not None else None
+            if i_ is None or i_.get("type") in ("ArrowFunctionExpression", "FunctionExpression"):
+                continue
+            container = i_.get("type") in ("ObjectExpression", "ArrayExpression") or (i_.get("type") == "NewExpression" and s(i_["callee"]) in ("Map", "Set", "WeakMap", "WeakSet", "Array", "Object"))
+            if not container and kind == "const":
+                continue
+            writes = []
+            for fname, fn in fns2:
+                if fn.get("body") is None:
+                    continue
+                ps = [p for p in ts_common.fn_params(fn) if p]
+                if vn in ps:
+                    continue        # shadowed
+                for x in walk(fn):
+                    t_ = x.get("type")
+                    tgt = None
+                    if t_ == "AssignmentExpression":
+                        tgt = x["left"]
+                    elif t_ == "UpdateExpression" or (t_ == "UnaryExpression" and x.get("operator") == "delete"):
+                        tgt = x["argument"]
+                    elif t_ == "CallExpression" and method_call(x) and method_call(x)[1] in ("add", "set", "push", "delete", "clear", "pop", "shift", "unshift", "splice", "sort") and s(method_call(x)[0]) == vn:
+                        writes.append((fname, fn, x, "call"))
+                    if tgt is not None:
+                        tt = unparen(tgt)
+                        root = tt
+                        while root.get("type") == "MemberExpression":
+                            root = unparen(root["object"])
+                        if root.get("type") == "Identifier" and root["value"] == vn:
+                            writes.append((fname, fn, x, "assign"))
+            if not writes:
+                continue
+            n_state += 1
+            bad = []
+            for fname, fn, x, how in writes:
+                ps = [p for p in ts_common.fn_params(fn) if p]
+                ok_ = False
+                if how == "assign" and x["type"] == "AssignmentExpression" and "." not in fname:
+                    l_ = unparen(x["left"])
+                    # a registry entry: keyed by a parameter of a module-level function (register / define / override)
+                    if l_.get("type") == "MemberExpression" and l_["property"].get("type") == "Computed" and unparen(l_["object"]).get("value") == vn \
+                            and s(unparen(l_["property"]["expression"])) in ps:
+                        ok_ = True
+                if not ok_:
+                    bad.append("%s (%s)" % (fname, s(x)[:50]))
+            rep.ob("C03.18", "%s/%s" % (rel.rsplit("/", 1)[-1], vn), not bad,
+                   "module-level `%s` is mutated by %s: state shared by every parser and every call - a result that consults it depends on what was validated or parsed before, so validate / safeParse / parse stop being functions of (validator, input, options)" % (vn, "; ".join(bad[:3])),
+                   m2.loc(decl), sample={"binding": vn, "writers": sorted({w[0] for w in writes})})
+    rep.ob("C03.18", "scan", True, sample={"module_level_mutable_bindings": n_state})
     # ---------------------------------------------------------------- C03.17
     rep.rule("C03.17", "every kind of object a validator admits as a whole (instanceof K) is an opaque leaf for the deep merge of parse results")
     # which built-in kinds do validate() methods admit by `input instanceof K`?
